@@ -8,6 +8,7 @@ import EEM.Gen.SafeDivide
 import EEM.Model.Caltrack
 import EEM.Model.Splits
 import EEM.Gen.SplitCandidates
+import EEM.Model.Window
 
 open EEM EEM.Proto EEM.Model
 
@@ -201,6 +202,45 @@ def opBest (args : List String) : String :=
     | none => "ok None"
   | none => "bad-op"
 
+def parseOptInt (s : String) : Option (Option Int) :=
+  if s == "-" then some none else (parseInt s).map some
+
+def parseRow (s : String) : Option (Model.Window.Row String) :=
+  match s.splitOn ":" with
+  | [t, v] => (parseInt t).map fun t => (t, if v == "-" then none else some v)
+  | _ => none
+
+def showWindow (r : Except Model.Window.Err (List (Model.Window.Row String) × List Model.Window.Warn)) : String :=
+  match r with
+  | .error .valueError => "err ValueError"
+  | .error .noBaselineData => "err NoBaselineDataError"
+  | .error .noReportingData => "err NoReportingDataError"
+  | .ok (rows, ws) =>
+    "ok " ++ " ".intercalate (rows.map fun (t, v) => s!"{t}:{v.getD "-"}") ++ " |" ++
+      String.join (ws.map fun | .gapAtEnd => " gap_at_end" | .gapAtStart => " gap_at_start")
+
+/-- `baseline <start> <end> <max_days> <overshoot> <n_days> <ignore_gap> <t:v>...` (`-` = None) -/
+def opBaseline (args : List String) : String :=
+  match args with
+  | st :: en :: md :: ov :: nd :: ig :: rows =>
+    match parseOptInt st, parseOptInt en, parseOptInt md, parseBool01 ov, parseOptInt nd, parseBool01 ig, rows.mapM parseRow with
+    | some st, some en, some md, some ov, some nd, some ig, some rows =>
+      showWindow (Model.Window.getBaselineData
+        { start := st, «end» := en, maxDays := md, allowOvershoot := ov, nDaysOvershoot := nd, ignoreGap := ig } rows)
+    | _, _, _, _, _, _, _ => "bad-op"
+  | _ => "bad-op"
+
+/-- `reporting <start> <end> <max_days> <overshoot> <ignore_gap> <t:v>...` -/
+def opReporting (args : List String) : String :=
+  match args with
+  | st :: en :: md :: ov :: ig :: rows =>
+    match parseOptInt st, parseOptInt en, parseOptInt md, parseBool01 ov, parseBool01 ig, rows.mapM parseRow with
+    | some st, some en, some md, some ov, some ig, some rows =>
+      showWindow (Model.Window.getReportingData
+        { start := st, «end» := en, maxDays := md, allowOvershoot := ov, ignoreGap := ig } rows)
+    | _, _, _, _, _, _ => "bad-op"
+  | _ => "bad-op"
+
 def step (line : String) : String :=
   match words line with
   | "submodel" :: args => opPredictSubmodel args
@@ -218,6 +258,8 @@ def step (line : String) : String :=
   | "trim" :: args => opTrim args
   | "route" :: args => opRoute args
   | "best" :: args => opBest args
+  | "baseline" :: args => opBaseline args
+  | "reporting" :: args => opReporting args
   | _ => "bad-op"
 
 partial def loop (h : IO.FS.Stream) (out : IO.FS.Stream) : IO Unit := do
